@@ -404,6 +404,20 @@ class ServerWorld:
             rec = (self.k.seq, self.k.now, item.packet_type, item.data)
         self.qlog.setdefault(sid, []).append(rec)
 
+    # -- link faults (used by the client-side fakes) ------------------------------
+    link_faults = ()
+
+    def link_verdict(self, cidx, kind):
+        """'ok' | 'refuse' | 'lose_req' | 'lose_resp' | 'blackhole' for a
+        connection attempt / request made now by client ``cidx``."""
+        for f in self.link_faults:
+            if f.get('c', cidx) != cidx:
+                continue
+            if f['t0'] <= self.k.now < f['t1'] and \
+                    f.get('on', kind) in (kind, 'any'):
+                return f['verdict']
+        return 'ok'
+
     # -- bookkeeping -------------------------------------------------------------
     def fault(self, kind, n=1):
         self.faults[kind] = self.faults.get(kind, 0) + n
